@@ -199,8 +199,8 @@ def one_table_problems(muts, before, after):
             added[m['field']] = val(m.get('initial'))
         elif m['t'] == 'ChangeField' and ['null', 'false'] in m['attrs'] and m.get('initial') is not None:
             fill.setdefault(m['field'], val(m['initial']))
-            if m.get('initial_sql') is not None:
-                embedded.add(m['field'])
+            if isinstance(m.get('initial_sql'), str):
+                embedded.add(m['field'])        # (SQL text to embed; a callable that returns a number is bound like a value)
     for pk, r0 in rows0.items():
         r1 = rows1[pk]
         for c, v0 in r0.items():
@@ -369,6 +369,10 @@ def family():
         [cf('note', '"x"', ('null', 'false')), add('extra', '3'), cf('note', '"n/a"', ('null', 'true'))],
         [add('extra', '3'), cf('extra', None, ('db_index', 'true')), cf('note', '"n/a"', ('null', 'false')),
          cf('note', None, ('max_length', '30'))],
+        # the initial value is a callable that returns a NUMBER (not SQL text): it is a value like any other - NULLs
+        # are replaced, what is there stays
+        [cf_sql('qty', -1, '-1', ('null', 'false'))],
+        [cf_sql('score', 0, '0', ('null', 'false')), add('extra', '3')],
         # a name that is freed by a rename and used again: each column keeps its own initial value
         [cf('code', '"LEGACY"', ('null', 'false')),
          {'t': 'RenameField', 'model': 'Alpha', 'old': 'code', 'new': 'old_code', 'db_column': None, 'db_table': None},
@@ -578,7 +582,7 @@ def embedded_not_null(rep):
     """finding F57: every difference is a changed existing value in a column that a ChangeField(null=False)
     with a callable initial value (SQL text to embed) made NOT NULL"""
     cols = ['vapp_%s.%s changed from ' % (m['model'].lower(), m['field']) for m in rep['mutations']
-            if m['t'] == 'ChangeField' and m.get('initial_sql') is not None and ['null', 'false'] in m['attrs']]
+            if m['t'] == 'ChangeField' and isinstance(m.get('initial_sql'), str) and ['null', 'false'] in m['attrs']]
     return bool(cols) and all(any(p.startswith(c) for c in cols) for p in rep['problems'])
 
 
